@@ -1,0 +1,6 @@
+//go:build !verif
+// +build !verif
+
+package io
+
+func verifLockEvent(event string) {}
